@@ -92,6 +92,37 @@ func scenarios(tier string) []*hn.Scenario {
 			}
 		}
 	}
+	// time passes: pipeline 0 is busy in its first node for an hour of virtual time; the context is never
+	// cancelled and has no deadline, so Send returns only after everything finished (a time limit of the
+	// library's own would cut it short)
+	for _, ls := range lens {
+		if len(ls) > 2 {
+			continue
+		}
+		sc := &hn.Scenario{SendType: "t", Cancel: 0, Thr: -1, ThrSinks: -1, Bound: 1, TimePasses: true}
+		sc.Name = fmt.Sprintf("lens=%v never cancelled, pipeline 0 busy for an hour of virtual time", ls)
+		for pi, l := range ls {
+			pid := fmt.Sprintf("p%d", pi)
+			ids := []string{}
+			for k := 0; k < 3; k++ {
+				typ := []el.NodeType{el.NodeTypeFilter, el.NodeTypeFormatter, el.NodeTypeSink}[k]
+				script := hn.Pass
+				if k == l-1 {
+					script = hn.Drop
+				}
+				if pi == 0 && k == 0 {
+					script = hn.Block
+				}
+				obj := fmt.Sprintf("%s.n%d", pid, k)
+				sc.Nodes = append(sc.Nodes, hn.NodeSpec{Obj: obj, ID: obj, Typ: typ, Script: script})
+				sc.History = append(sc.History, hn.HistOp{Op: "node", Obj: obj, ID: obj})
+				ids = append(ids, obj)
+			}
+			sc.History = append(sc.History, hn.HistOp{Op: "pipe", ID: pid, Type: "t", Nodes: ids})
+			sc.Chains = append(sc.Chains, hn.Chain{Pipe: pid, Type: "t", Nodes: ids})
+		}
+		out = append(out, sc)
+	}
 	return out
 }
 
@@ -220,6 +251,9 @@ func main() {
 			}
 			sc := scenarios(tier)[job.Scn]
 			ex := &vrt.Explorer{Bound: sc.Bound, Permute: false, Body: body(sc)}
+			if sc.TimePasses {
+				ex.Clock = 1_700_000_000_000_000_000
+			}
 			return hk.ExploreJob(prop, job, deadline, ex, sc.Describe())
 		},
 		Rule: "stateless DFS over all schedules (thread switches at every lock/channel/select/WaitGroup/sync.Map step of the real graph.process/doProcess, select-arm choices, cancel placed at every scheduling point) of each dispatch skeleton, preemption-bounded; an outcome is distinct if (Status, error, ctx state, invoked nodes) differ; every execution is checked for deadlock, panic, primitive misuse, leaked goroutines; plus 'busy broker' scenarios: the Send under test runs while another Send is stuck inside a blocked node and a registry call (threshold setter / getter, RegisterNode, RegisterPipeline, RemovePipeline / RemovePipelineAndNodes of another or of the very pipeline the first Send is stuck in, RemoveNode, Reopen) is in flight - its cancellation must still let it return (bound 1 / 2, at most 4 non-default switches at blocking points)",
